@@ -75,6 +75,16 @@ def bytes_arg(chars):
     return ",".join(str(c) for c in chars) or "-"
 
 
+def sink_arg(arg):
+    """sink policy of a print through the callback: all | part | cap (+ bytes taken per call)"""
+    cb = arg.get("cb", "all")
+    return " cb=%s" % cb + (" cap=%d" % arg.get("cap", 1) if cb == "cap" else "")
+
+
+def sink_class(arg):
+    return arg.get("cb", "all")
+
+
 def step_line(st, mode=None):
     a, arg = st["a"], st["arg"]
     if a == "print":
@@ -82,11 +92,15 @@ def step_line(st, mode=None):
         ln = "print api=%s src=%s %s flags=%d width=%d dec=%d left=%d" % (arg["api"], arg["src"], src, arg["flags"], arg["width"],
                                                                        arg["dec"], arg["left"])
         if arg.get("cb"):
-            ln += " cb=" + arg["cb"]
+            ln += sink_arg(arg)
     elif a == "printvec":
-        ln = "printvec src=%s elems=hex:%s left=%d cb=%s" % (arg["src"], arg["elems"], arg["left"], arg.get("cb", "all"))
+        if "vs" in arg:
+            el = "nums=" + (";".join(num_arg(v) for v in arg["vs"]) or "-")
+        else:
+            el = "elems=hex:" + arg["elems"]
+        ln = "printvec src=%s %s left=%d%s" % (arg["src"], el, arg["left"], sink_arg(arg))
     elif a == "printobj":
-        ln = "printobj types=%s elems=hex:%s left=%d cb=%s" % ("".join(arg["types"]) or "-", arg["elems"], arg["left"], arg.get("cb", "all"))
+        ln = "printobj types=%s elems=hex:%s left=%d%s" % ("".join(arg["types"]) or "-", arg["elems"], arg["left"], sink_arg(arg))
     elif a in ("fmt", "fmtlist"):
         ln = "%s api=%s chars=%s" % (a, arg.get("api", "parse"), bytes_arg(arg["chars"]))
     elif a == "dest":
@@ -156,7 +170,7 @@ def match(exp, obs, step):
         return "over: bytes outside the space handed to the call were written"
     if r == "refused":
         return None
-    if a == "print":
+    if a in ("print", "printvec"):
         if exp.get("must") == "refuse":
             return "truncated: accepted although the shortest numeral does not fit into %d bytes" % step["arg"]["left"]
         return None
@@ -214,8 +228,8 @@ def design_equal(st, obs):
     if obs.get("r") != "ok":
         return True
     a = st["a"]
-    if a == "print":
-        return des["text"] == obs["text"]
+    if a in ("print", "printvec"):
+        return des["text"] == obs["text"] and ("off" not in des or des["off"] == obs.get("off"))
     if a == "fmt":
         return all(des[k] == obs[k] for k in ("used", "w", "d"))
     if a == "fmtlist":
@@ -247,11 +261,11 @@ def signature(step, why, obs=None):
     kind = why.split(":")[0].lower()
     a = step["a"]
     if a == "print":
-        return "x07:print:%s:%s:%s%s:%s" % (arg["api"], arg["src"], fmt_class(arg, obs), ("," + arg["cb"]) if arg.get("cb") else "", kind)
+        return "x07:print:%s:%s:%s%s:%s" % (arg["api"], arg["src"], fmt_class(arg, obs), ("," + sink_class(arg)) if arg.get("cb") else "", kind)
     if a == "printvec":
-        return "x07:printvec:%s:%s:%s" % (arg["src"], arg.get("cb", "all"), kind)
+        return "x07:printvec:%s:%s:%s" % (arg["src"], sink_class(arg), kind)
     if a == "printobj":
-        return "x07:printobj:%s:%s" % (arg.get("cb", "all"), kind)
+        return "x07:printobj:%s:%s" % (sink_class(arg), kind)
     if a in ("fmt", "fmtlist"):
         return "x07:%s:%s:%s" % (a, arg.get("api", "parse"), kind)
     if a == "dest":
@@ -408,9 +422,13 @@ def gen_print_cases(rng, cfg):
             vals = rng.sample(vs, min(len(vs), 25 + nr))
         for hx in vals:
             for api in ("value", "conv"):
-                for cb in ("all", "part"):
+                for cb in ("all", "part", "cap"):
                     left = rng.choice([0, 1, 2, 3, 5, 8, 12, 13, 20, 21, 25, 64, 300])
-                    cases.append({"a": "print", "arg": {"api": api, "src": t, "bytes": hx, "flags": 0, "width": 0, "dec": 0, "left": left, "cb": cb}})
+                    arg = {"api": api, "src": t, "bytes": hx, "flags": 0, "width": 0, "dec": 0, "left": left, "cb": cb}
+                    if cb == "cap":          # the sink takes at most cap bytes of every piece offered
+                        arg["cap"] = rng.choice([1, 2, 3, 5, 8, 30])
+                        arg["left"] = rng.choice([left, 64, 300])
+                    cases.append({"a": "print", "arg": arg})
     return cases
 
 
@@ -444,11 +462,16 @@ def gen_vec_cases(rng, cfg):
                 # (a character vector is handed on as text: only the all-or-nothing sink)
                 cases.append({"a": "printvec", "arg": {"src": t, "elems": el, "left": rng.choice([0, 1, 2, 3, 5, 10, 40, 64, 200, 3000]),
                                                        "cb": "all" if t == "c" else rng.choice(["all", "all", "part"])}})
+                if t != "c" and n in (1, 2, 5):
+                    # short-writing sink with room enough: every piece is cut to at most cap bytes
+                    for cap in (1, 3, rng.choice([2, 4, 5, 8, 12, 30])):
+                        cases.append({"a": "printvec", "arg": {"src": t, "elems": el, "left": rng.choice([200, 3000]), "cb": "cap", "cap": cap}})
     for _ in range(20 + 3 * cfg["nrand"]):
         ts = [rng.choice(ALLT) for _ in range(rng.randrange(0, 7))]
         el = "".join(rand_elem(rng, t).ljust(32, "0") for t in ts)
-        cases.append({"a": "printobj", "arg": {"types": ts, "elems": el, "left": rng.choice([0, 1, 2, 5, 9, 20, 40, 64, 200, 1000]),
-                                               "cb": rng.choice(["all", "all", "part"])}})
+        cb = rng.choice(["all", "all", "part", "cap"])
+        cases.append({"a": "printobj", "arg": dict({"types": ts, "elems": el, "left": rng.choice([0, 1, 2, 5, 9, 20, 40, 64, 200, 1000]), "cb": cb},
+                                                   **({"cap": rng.choice([1, 2, 3, 6, 30]), "left": 1000} if cb == "cap" else {}))})
     combos = [("value", "scalar"), ("data", "scalar"), ("value", "vec"), ("value", "array"), ("array", "array")]
     for api, sk in combos:
         for src in ALLT + "c":
